@@ -99,7 +99,8 @@ Definition impl_lex_spans (il : impl_lex) : list span :=
 
 (* ---- structural tie for parser diagnostics: generators = spans of the (comment-stripped) token
    stream the parser receives, the stream span, the lexer's own diagnostics (same handler), and the
-   end-of-stream spans of Parser::emit_error for the file and for every group *)
+   end-of-stream spans of Parser::emit_error for the file and for every group, and the
+   Span::next_char_utf8 span after each of them (second, expensive stage: only when the first fails) *)
 Definition tok_gen_spans (ts : list tok) : list span :=
   flat_map (fun t => match t with TComment _ _ => [] | _ => tok_spans t end) ts.
 Definition inner_spans (ts : list tok) : list span :=
@@ -111,7 +112,11 @@ Definition gens_cheap (il : impl_lex) : list span :=
   | ILexPanic => []
   end.
 Definition gens_eos (ucls : N -> N) (src : list ci) (il : impl_lex) : list span :=
-  match il with ILexOk ts full _ => map (eos_span ucls src) (full :: inner_spans ts) | _ => [] end.
+  match il with
+  | ILexOk ts full _ =>
+    map (eos_span ucls src) (full :: inner_spans ts) ++ flat_map (next_char_span src) (gens_cheap il)
+  | _ => []
+  end.
 Definition diag_derivedb (ucls : N -> N) (src : list ci) (il : impl_lex) (sp : span) : bool :=
   derivedb (gens_cheap il) sp || derivedb (gens_cheap il ++ gens_eos ucls src il) sp.
 
